@@ -398,7 +398,7 @@ def run(ctx):
     ctx.rule('R17.6', 'every exactly resolved call binds against its callee\'s signature (no missing/unknown/surplus argument on any arm)', floor=1)
     _run_base(ctx)
     from ..signatures import call_compat
-    call_compat(ctx, 'R17.6', ['nbdime.gitfiles', 'nbdime.vcs.git.filter_integration'], 'diffing git revisions aborts')
+    call_compat(ctx, 'R17.6', ['nbdime.gitfiles', 'nbdime.vcs.git.filter_integration'] if ctx.tier == 'quick' else ['nbdime.'], 'diffing git revisions aborts')
     from ..names import name_binding
-    name_binding(ctx, 'R17.7', ['nbdime.gitfiles', 'nbdime.vcs.git.filter_integration'])
+    name_binding(ctx, 'R17.7', ['nbdime.gitfiles', 'nbdime.vcs.git.filter_integration'] if ctx.tier == 'quick' else ['nbdime.'])
     worktree_streams(ctx, 'R17.8', 'R17.9')
